@@ -63,3 +63,18 @@ Theorem C10_wrong_seed_end_to_end : forall (K : Fld), FldOk K -> forall (M : Mod
         (finv K (fmul K (fmul K e e) (fmul K (fmul K z z) (fmul K (fpow K y (1 * bits)) y))))).
 Proof. exact prover_mask_wrong_oracle. Qed.
 Print Assumptions C10_wrong_seed_end_to_end.
+
+(** the same two statements for WHOLE BATCHES, across every chunk boundary, with the same oracles: whatever
+    recover-and-verify accepts, recover-only answers with the same masks at the same positions; and whether [verify_batch]
+    returns Ok does not depend on which verifying mode is asked nor on the seeds the statements carry *)
+From BP Require Import Proofs.BatchTopP Proofs.BatchModeP.
+Theorem C10_batch_recover_only_same_masks : forall (K : Fld) (ofN : N -> K) ns np nt ms orc masks,
+  verify_batch K ofN RecoverAndVerify ns np nt ms orc = Ok masks -> verify_batch K ofN RecoverOnly ns np nt ms orc = Ok masks.
+Proof. exact batch_recover_only_same_masks. Qed.
+Print Assumptions C10_batch_recover_only_same_masks.
+
+Theorem C10_batch_verdict_independent_of_seed_and_mode : forall (K : Fld) (ofN : N -> K) m1 m2 ns np nt ms orc,
+  verifying m1 = true -> verifying m2 = true ->
+  (exists a, verify_batch K ofN m1 ns np nt ms orc = Ok a) <-> (exists a, verify_batch K ofN m2 ns np nt (map (forget_seed K) ms) orc = Ok a).
+Proof. exact batch_verdict_independent_of_seed_and_mode. Qed.
+Print Assumptions C10_batch_verdict_independent_of_seed_and_mode.
